@@ -26,6 +26,8 @@ def build():
     u.fn(CS, [CI, 'fn clear'], props='C16', key='ChangeSet::clear',
          requires=[E('wf', 'old(self).wf()')],
          ensures=[E('wf', 'final(self).wf()'), E('empty', 'final(self)@ == Map::<Index, T>::empty()')])
+    # FromIterator::from_iter / Extend::extend (a `for` loop over a generic IntoIterator calling `add` per pair): not under contract —
+    # Verus has no iteration laws for an arbitrary generic iterator; `add` itself is.
     # ---- join members of the change set
     def member(gname, header, pre_file, path_hdr, trait):
         pre = open(os.path.join(_here, '..', 'join', 'members', pre_file)).read()
